@@ -11,6 +11,7 @@ import RosedVerif.Model.GenEq.Commit
 import RosedVerif.Model.GenEq.Apply
 import RosedVerif.Model.GenEq.Paras
 import RosedVerif.Model.GenEq.InstA
+import RosedVerif.Model.GenEq.AffixPlaceholder
 set_option linter.unusedVariables false
 set_option linter.unusedSectionVars false
 set_option linter.unusedSimpArgs false
@@ -20,7 +21,7 @@ open RosedVerif
 variable {α : Type} [DecidableEq α] (cx : Ctx α)
 
 theorem editorJustifyOpts_regenerated (h : Gen.Code.editorJustifyOpts_extracted = true)
-    (hd : DefaultsOk cx) (hpos : ∀ a, 0 < cx.blen a) (ed : Editor α) (width : Int)
+    (hd : DefaultsOk cx) (hpos : ∀ a, 0 < cx.blen a) (hph : cx.PhFresh) (ed : Editor α) (width : Int)
     (o : Options α) : Gen.Code.editorJustifyOpts cx ed width o = ed.justifyOpts cx width o := by
   first
     | exact absurd h (by decide)
@@ -30,8 +31,9 @@ theorem editorJustifyOpts_regenerated (h : Gen.Code.editorJustifyOpts_extracted 
          blockApply_regenerated cx (by decide),
          editorApplyGParagraphsOpts_regenerated cx (by decide) hd hpos, editorApplyOpts_regenerated cx (by decide),
          editorWithOptions_regenerated cx (by decide), editorLinesTo_regenerated cx (by decide) hpos,
-         editorCommit_regenerated cx (by decide)]
+         editorCommit_regenerated cx (by decide), affixPlaceholder_regenerated cx (by decide) hph]
        go_norm
+       simp only [Go.stringOfRune]
        generalize o.withDefaults cx = od
        cases hpp : od.preservePara
        all_goals
@@ -51,19 +53,19 @@ theorem editorJustifyOpts_regenerated (h : Gen.Code.editorJustifyOpts_extracted 
             | go_close))
 
 theorem editorJustify_regenerated (h : Gen.Code.editorJustify_extracted = true)
-    (hd : DefaultsOk cx) (hpos : ∀ a, 0 < cx.blen a) (ed : Editor α) (width : Int) :
+    (hd : DefaultsOk cx) (hpos : ∀ a, 0 < cx.blen a) (hph : cx.PhFresh) (ed : Editor α) (width : Int) :
     Gen.Code.editorJustify cx ed width = ed.justifyOpts cx width ed.opts := by
   first
     | exact absurd h (by decide)
     | (unfold Gen.Code.editorJustify
-       simp only [editorJustifyOpts_regenerated cx (by decide) hd hpos, bind_pure])
+       simp only [editorJustifyOpts_regenerated cx (by decide) hd hpos hph, bind_pure])
 
 theorem editorJustifyOpts_cxA (h : Gen.Code.editorJustifyOpts_extracted = true) (ed : Editor Int) (width : Int) (o : Options Int) :
     Gen.Code.editorJustifyOpts cxA ed width o = ed.justifyOpts cxA width o :=
-  editorJustifyOpts_regenerated cxA h defaultsOk_cxA cxA_WF.2 ed width o
+  editorJustifyOpts_regenerated cxA h defaultsOk_cxA cxA_WF.2 _root_.RosedVerif.phFresh_cxA ed width o
 
 theorem editorJustify_cxA (h : Gen.Code.editorJustify_extracted = true) (ed : Editor Int) (width : Int) :
     Gen.Code.editorJustify cxA ed width = ed.justifyOpts cxA width ed.opts :=
-  editorJustify_regenerated cxA h defaultsOk_cxA cxA_WF.2 ed width
+  editorJustify_regenerated cxA h defaultsOk_cxA cxA_WF.2 _root_.RosedVerif.phFresh_cxA ed width
 
 end RosedVerif.GenCodeEq
